@@ -31,7 +31,9 @@ use lightning_signer::node::{Node, SpendType};
 use lightning_signer::persist::Persist;
 use lightning_signer::signer::derive::KeyDerivationStyle;
 use lightning_signer::tx::tx::{CommitmentInfo2, HTLCInfo2};
-use lightning_signer::txoo::proof::TxoProof;
+use lightning_signer::bitcoin::hash_types::FilterHeader;
+use lightning_signer::txoo::proof::{ProofType, TxoProof};
+use lightning_signer::txoo::spv::SpvProof;
 use lightning_signer::util::status::{Code, Status};
 use lightning_signer::util::test_utils::key::{make_test_counterparty_points, make_test_pubkey};
 use lightning_signer::util::test_utils::*;
@@ -116,6 +118,19 @@ fn coinbase(h: u32) -> Transaction {
         input: vec![],
         output: vec![TxOut { value: Amount::ZERO, script_pubkey: ScriptBuf::new() }],
     }
+}
+
+/// the proof an honest follower sends: attestation and compact filter of the whole block, SPV
+/// sub-proof over the watches the signer reported; also the transactions it carries
+fn follower_proof(block: &Block, prev_filter_header: &FilterHeader, height: u32, txid_watches: &[Txid], outpoint_watches: &[OutPoint]) -> (TxoProof, Vec<Transaction>) {
+    let full = TxoProof::prove_unchecked(block, prev_filter_header, height);
+    let filter = match full.proof {
+        ProofType::Filter(filter, _) => filter,
+        _ => panic!("expected a filter proof"),
+    };
+    let (spv_proof, _spent, _unspent) = SpvProof::build(block, txid_watches, outpoint_watches);
+    let delivered = spv_proof.txs.clone();
+    (TxoProof { attestations: full.attestations, proof: ProofType::Filter(filter, spv_proof) }, delivered)
 }
 
 #[derive(Clone)]
@@ -653,7 +668,11 @@ impl Sess {
 
     // -------------------------------------------------------------- operations
 
-    fn add_block(&mut self, ids: &[u64]) -> Result<bool, ()> {
+    /// Connect a block the way an honest chain follower does: the proof carries the compact
+    /// filter and only those transactions of the block that match the watches the signer
+    /// reports (forward watches; SpvProof::build adds in-block descendants).  Returns the ids
+    /// of the transactions the proof delivered (None = the tracker refused the block).
+    fn add_block(&mut self, ids: &[u64]) -> Result<Option<Vec<u64>>, ()> {
         let node = self.node.clone();
         let txs: Vec<Transaction> = ids.iter().map(|i| self.txs[i].real.clone()).collect();
         let persister = self.world.persister.clone();
@@ -664,24 +683,27 @@ impl Sess {
             all.extend_from_slice(&txs);
             let prev = tracker.tip().clone();
             let block = make_block(prev.0, all);
-            let proof = TxoProof::prove_unchecked(&block, &prev.1, tracker.height() + 1);
+            let (tw, ow) = tracker.get_all_forward_watches();
+            let (proof, delivered) = follower_proof(&block, &prev.1, tracker.height() + 1, &tw, &ow);
             let ok = tracker.add_block(block.header, proof).is_ok();
             if ok {
                 // what the AddBlock handler does next
                 persister.update_tracker(&node_id, &tracker).expect("update_tracker");
             }
-            (block, prev, ok)
+            (block, prev, ok, delivered)
         }));
         match r {
-            Ok((b, p, true)) => {
+            Ok((b, p, true, delivered)) => {
                 self.stack.push((b, p, ids.to_vec()));
-                Ok(true)
+                Ok(Some(delivered.iter().filter_map(|t| self.txids.get(&t.compute_txid()).cloned()).collect()))
             }
-            Ok((_, _, false)) => Ok(false),
+            Ok((_, _, false, _)) => Ok(None),
             Err(_) => Err(()),
         }
     }
 
+    /// Disconnect the tip; the proof is built from the signer's REVERSE watches (watches and
+    /// outpoints whose spend it has seen), as the follower does.
     fn remove_block(&mut self) -> Result<bool, ()> {
         let (block, prev, ids) = self.stack.pop().expect("nothing to remove");
         let node = self.node.clone();
@@ -689,7 +711,8 @@ impl Sess {
         let node_id = self.node_id;
         let r = catch_unwind(AssertUnwindSafe(|| {
             let mut tracker = node.get_tracker();
-            let proof = TxoProof::prove_unchecked(&block, &prev.1, tracker.height());
+            let (tw, ow) = tracker.get_all_reverse_watches();
+            let (proof, _) = follower_proof(&block, &prev.1, tracker.height(), &tw, &ow);
             let ok = tracker.remove_block(proof, prev.clone()).is_ok();
             if ok {
                 persister.update_tracker(&node_id, &tracker).expect("update_tracker");
@@ -860,8 +883,18 @@ impl Sess {
                 self.coq_ops.push(format!("One (AddBlock {})", self.coq_block(ids)));
                 self.jsteps.push(json!({"add_block": ids.iter().map(|i| format!("{}:{}", i, self.txs[i].name)).collect::<Vec<_>>()}));
                 match self.add_block(ids) {
-                    Ok(true) => self.bump("blocks_added"),
-                    Ok(false) => {
+                    Ok(Some(delivered)) => {
+                        // the model is given what the proof delivered to the listeners
+                        let n = self.coq_ops.len() - 1;
+                        self.coq_ops[n] = format!("One (AddBlock {})", self.coq_block(&delivered));
+                        if delivered.len() != ids.len() {
+                            let m = self.jsteps.len() - 1;
+                            self.jsteps[m]["delivered_by_proof"] = json!(delivered);
+                            self.bump("blocks_with_filtered_txs");
+                        }
+                        self.bump("blocks_added")
+                    }
+                    Ok(None) => {
                         // the tracker refused the block (C13's subject): the case ends before this step
                         self.coq_ops.pop();
                         self.jsteps.pop();
@@ -876,8 +909,8 @@ impl Sess {
                 self.jsteps.push(json!({"empty_blocks": n}));
                 for _ in 0..*n {
                     match self.add_block(&[]) {
-                        Ok(true) => self.bump("blocks_added"),
-                        Ok(false) => {
+                        Ok(Some(_)) => self.bump("blocks_added"),
+                        Ok(None) => {
                             eprintln!("harness error: the tracker refused an empty block");
                             std::process::exit(3);
                         }
@@ -1156,6 +1189,21 @@ fn scripted(args: &Args) {
         New((1, 4)), Setup((1, 4), n.clone()), Add(vec![tid(0, F), tid(0, C), tid(0, S)]), Forget((1, 4)),
         Burst(md.saturating_sub(1)), Heartbeat, Add(vec![]), Heartbeat, Restart, Heartbeat,
     ]));
+    // the close is confirmed, the signer restarts, then a reorg disconnects the close (the proof of
+    // the disconnected block is built from the reverse watches the restored signer reports): the
+    // close is gone from the best chain, however long the channel then ages
+    scripts.push(("restart-then-close-reorged-out", 1000, vec![
+        New(k1), Setup(k1, n.clone()), Add(vec![tid(0, F)]), Add(vec![tid(0, M)]), Add(vec![]), Restart, Remove, Remove,
+        Forget(k1), Burst(md + 1), Heartbeat, Restart, Heartbeat,
+        Add(vec![tid(0, M)]), Burst(md.saturating_sub(2)), Heartbeat, Add(vec![]), Heartbeat,
+    ]));
+    scripts.push(("restart-then-double-spend-reorged-out", 1000, vec![
+        New(k1), Setup(k1, n.clone()), Add(vec![tid(0, D)]), Forget(k1), Restart, Remove, Burst(md + 1), Heartbeat, Restart, Heartbeat,
+    ]));
+    scripts.push(("restart-then-sweeps-reorged-out", 1000, vec![
+        New(k2), Setup(k2, n.clone()), Add(vec![tid(0, F)]), Add(vec![tid(0, C)]), Add(vec![tid(0, S)]), Add(vec![tid(0, H), tid(0, X)]),
+        Restart, Remove, Remove, Forget(k2), Burst(md + 1), Heartbeat, Remove, Restart, Remove, Burst(md), Heartbeat,
+    ]));
     // forget on a node that was itself restored from the store, then restart
     scripts.push(("forget-on-restored-node", 1000, vec![
         New(k1), Setup(k1, n.clone()), Add(vec![tid(0, F)]), Restart, Forget(k1), Restart, Heartbeat,
@@ -1201,6 +1249,10 @@ fn random(args: &Args, malformed: bool) {
             let forget_first = rng.chance(1, 2);
             if forget_first {
                 pre.push(Op::Forget(k));
+            }
+            // half of the time the signer restarts between the sweeps and the reorg
+            if rng.chance(1, 2) {
+                pre.push(Op::Restart);
             }
             for _ in 0..removes {
                 pre.push(Op::Remove);
